@@ -24,3 +24,12 @@ theorem toBE_two (n : Nat) : toBE 2 n = [UInt8.ofNat (n / 256 % 256), UInt8.ofNa
   simp [toBE]
 
 end JT
+
+namespace JT
+theorem ofNat_toNat_byte (b : Byte) : UInt8.ofNat b.toNat = b := by
+  simp
+
+theorem len8 (l : Bytes) (h : l.length = 8) : ∃ a b c d e f g i, l = [a, b, c, d, e, f, g, i] := by
+  match l, h with
+  | [a, b, c, d, e, f, g, i], _ => exact ⟨_, _, _, _, _, _, _, _, rfl⟩
+end JT
